@@ -3,8 +3,10 @@
 import json, os, subprocess, sys
 VERIF = os.path.dirname(os.path.dirname(os.path.abspath(__file__)))
 sys.path.insert(0, os.path.join(VERIF, "bin"))
-from props import PROPS, HARNESSES
+from props import PROPS, HARNESSES, TEXT_FRAGMENTS, NOT_APPLICABLE_FRAGMENTS
 from manifest_text import TEXT, NOT_APPLICABLE
+TEXT.update(TEXT_FRAGMENTS)
+NOT_APPLICABLE.update(NOT_APPLICABLE_FRAGMENTS)
 
 hook_commits = subprocess.run(["git", "-C", "/repo", "log", "--format=%h %s"], capture_output=True, text=True).stdout.splitlines()
 EXTRA = {"826eff4"}  # conductor hook (committed by the round driver under a generic message)
@@ -29,7 +31,7 @@ all_ids = [json.loads(l)["id"] for l in open(os.path.join(VERIF, "properties.jso
 na = [{"property_id": i, "reason": NOT_APPLICABLE.get(i, "not claimed yet: model and harness for this property are not built in the committed state")} for i in all_ids if i not in PROPS]
 m = {
     "version": 1,
-    "setup_cmd": "cd /verif/lean && lake build Astria astria-driver",
+    "setup_cmd": "cd /verif/lean && lake build " + " ".join(sorted({m for P in PROPS.values() for m in P["lean_modules"]}) + sorted({HARNESSES[h].get("driver", "astria-driver") for P in PROPS.values() for h in P["harnesses"]})),
     "hooks": {
         "guard": "cargo feature `verif` (per hooked crate) together with cfg(test)",
         "enable": "cargo test --offline -p <crate> --features verif --lib --no-run, then the test binary is run with `verif::driver --exact` (bin/check does this); the hook line is `#[cfg(all(test, feature = \"verif\"))] #[path = \"/verif/harness/<crate>/mod.rs\"] mod verif;`",
